@@ -37,7 +37,7 @@ Local Open Scope Q_scope.
 Definition mkp nS nA nO T O R ab s0 g := @mk_pomdp Q NumQ nS nA nO T O R ab s0 g.
 Definition mkf N pi om ini := @mk_fsc Q NumQ N pi om ini.
 (* rationals are printed as (numerator, denominator): Coq prints some Q values in hexadecimal *)
-Definition qp (x : Q) := (Qnum x, Qden x).
+Definition qp (x : Q) := (Z.ltb (Qnum x) 0, Z.abs_N (Qnum x), Npos (Qden x)).
 Definition ev (p : pomdp Q) (f : fsc Q) V rep tol vtol M (k : nat) :=
   (c09_eval_check p f V rep tol vtol M, map (map qp) (ret_tab p f (pabs p) k)).
 Definition hp (t : list Q * list Q) := (map qp (fst t), map qp (snd t)).
@@ -54,7 +54,7 @@ Definition stp (p : pomdp Q) (f : fsc Q) tol (V : list (list Q)) (n : nat) eps :
 EVAL_CLAUSES = ["pomdp_wfb", "fsc_wfb", "abs_benign", "system_masked", "system_code", "vbound", "value_ok"]
 LEARN_CLAUSES = ["pomdp_wfb", "rows_valid", "bounded", "contraction", "abs_benign", "system_masked", "system_code", "value_ok"]
 GAMMAS = ["1/2", "3/4", "9/10"]
-KSTEPS = {"1/2": 24, "3/4": 30, "9/10": 40}
+KSTEPS = {"1/2": 16, "3/4": 20, "9/10": 20}   # exact rationals grow with k: keep each term ~1 s
 
 
 # ----------------------------------------------------------------------------
@@ -92,13 +92,13 @@ def _reachable(nS, nA, T, absorbing, s0):
     return seen
 
 
-def gen_pomdp(rng, abs_kind=None, smax=4, amax=3, omax=3, smin=1):
+def gen_pomdp(rng, abs_kind=None, smax=4, amax=3, omax=3, smin=1, amin=1, omin=1):
     if abs_kind is None:
         abs_kind = rng.choice(["none", "none", "benign", "paying", "paying", "paying"])
     for attempt in range(200):
         nS = rng.randint(max(smin, 2 if abs_kind != "none" else 1), smax)
-        nA = rng.randint(1, amax)
-        nO = rng.randint(1, omax)
+        nA = rng.randint(amin, amax)
+        nO = rng.randint(omin, omax)
         absorbing = [False] * nS
         if abs_kind != "none":
             for s in rng.sample(range(nS), rng.randint(1, max(1, nS // 2))):
@@ -227,6 +227,12 @@ def exact_value(pc, N, pi, om, masked=True):
     return [[x[pos[(n, s)]] for s in range(nS)] for n in range(N)]
 
 
+def unq(t):
+    """(negative?, |numerator|, denominator) as printed by qp"""
+    neg, n, d = t
+    return F(-n if neg else n, d)
+
+
 def is_num(x):
     return not isinstance(x, str) and x is not None
 
@@ -252,13 +258,13 @@ def gen_cases(rng, tier):
     n_bpi = 9 if tier == "quick" else 90
     for i in range(n_bpi):
         kind = ["none", "none", "benign", "paying"][i % 4] if tier == "quick" else rng.choice(["none", "none", "benign", "paying"])
-        pc = gen_pomdp(rng, abs_kind=kind, smax=3, amax=2, omax=2, smin=2)
+        pc = gen_pomdp(rng, abs_kind=kind, smax=3, amax=2, omax=2, smin=2, amin=2, omin=1 + (i % 4 != 3))
         cases.append({"kind": "bpi", "pomdp": pc, "nodes": 1 + i % 3, "seed": 1 + i % 3 if tier == "quick" else rng.randint(1, 9),
                       "iterations": rng.randint(1, 4) if tier == "quick" else rng.randint(1, 20)})
     n_ga = 6 if tier == "quick" else 60
     for i in range(n_ga):
         kind = ["none", "benign", "paying"][i % 3]
-        pc = gen_pomdp(rng, abs_kind=kind, smax=3, amax=2, omax=2, smin=2)
+        pc = gen_pomdp(rng, abs_kind=kind, smax=3, amax=2, omax=2, smin=2, amin=2, omin=2)
         cases.append({"kind": "ga", "pomdp": pc, "nodes": 1 + i % 3, "seed": 1 + i % 3 if tier == "quick" else rng.randint(1, 9),
                       "iterations": rng.randint(2, 8) if tier == "quick" else rng.randint(1, 40),
                       "dtype": "float32" if i % 6 == 5 else "float64"})
@@ -443,7 +449,7 @@ def run(ctx):
                 report("C09:harness:generated-case-illformed", {"case": case, "flags": fl_}, found=False)
                 continue
             V = [[vlib.frac(x) for x in row] for row in res["eval"]["V"]]
-            ret = [[F(x[0], x[1]) for x in row] for row in ret]
+            ret = [[unq(x) for x in row] for row in ret]
             g = F(pc["gamma"])
             tail = g ** extra["k"] * extra["M"]
             worst = max(((abs(V[n][s] - ret[n][s]), n, s) for n in range(fc["N"]) for s in range(pc["nS"])))
@@ -456,6 +462,9 @@ def run(ctx):
                 pi, om = fr(fc["pi"]), fr(fc["om"])
                 Vs = exact_value(pc, fc["N"], pi, om, masked=True)
                 d = max(((abs(V[n][s] - Vs[n][s]), n, s) for n in range(fc["N"]) for s in range(pc["nS"])))
+                dl = max([(abs(V[n][s] - Vs[n][s]), n, s) for n in range(fc["N"]) for s in range(pc["nS"]) if not pc["absorbing"][s]] or [d])
+                if dl[0] > extra["tol"] / (1 - F(pc["gamma"])):
+                    d = dl      # prefer a live (non-absorbing) state as the witness
                 # true value is within gamma^k * Rmax/(1-gamma) of the exact k-step return table
                 Rmax = max([F(0)] + [abs(x) for row in pomdp_arrays(pc)[2] for x in row])
                 detail = {"case": case, "flags": fl_, "node": d[1], "state": d[2],
@@ -488,7 +497,7 @@ def run(ctx):
                     bad_mirror = {"length": L, "why": "history enumeration differs"}
                     break
                 for h, rr, mm, ss in zip(hs, real, mir, spec):
-                    mm, ss = F(mm[0], mm[1]), F(ss[0], ss[1])
+                    mm, ss = unq(mm), unq(ss)
                     if rr != mm and bad_mirror is None:
                         bad_mirror = {"history": h, "object": str(rr), "mirror": str(mm), "semantics": str(ss)}
                     if rr != ss and (bad_spec is None or abs(rr - ss) > bad_spec["_d"]):
